@@ -35,7 +35,23 @@ func TestMain(m *testing.M) { vt.Main(m, rec) }
 type mfile struct {
 	Name string `json:"name"`
 	Data vt.B   `json:"data"`
+	// Pad appends that many filler bytes to Data when the module is materialised (large modules keep the
+	// first request busy long enough for concurrent first requests to overlap with it).
+	Pad int `json:"pad,omitempty"`
 }
+
+func (f mfile) content() []byte {
+	if f.Pad <= 0 {
+		return []byte(f.Data)
+	}
+	b := append([]byte(nil), f.Data...)
+	line := []byte("0123456789abcdefghijklmnopqrstuvwxyz0123456789abcdefghijklmnopqrstuvwxyz\n")
+	for len(b) < len(f.Data)+f.Pad {
+		b = append(b, line...)
+	}
+	return b
+}
+
 type modver struct {
 	Path    string  `json:"path"`
 	Version string  `json:"version"`
@@ -83,7 +99,7 @@ func materialize(dir string, c proxyCase) (stored map[string]map[string][]byte, 
 		}
 		base := filepath.Join(dir, strings.ReplaceAll(encP, "/", "_")+"_"+encV)
 		files := map[string][]byte{}
-		all := append([]mfile{{".info", m.Info}, {".mod", m.Mod}}, m.Files...)
+		all := append([]mfile{{Name: ".info", Data: m.Info}, {Name: ".mod", Data: m.Mod}}, m.Files...)
 		switch m.Form {
 		case "txt", "txtar":
 			a := &txtar.Archive{Comment: []byte("written by the C20 harness\n")}
@@ -91,8 +107,8 @@ func materialize(dir string, c proxyCase) (stored map[string]map[string][]byte, 
 				if _, dup := files[f.Name]; dup {
 					return nil, false
 				}
-				a.Files = append(a.Files, txtar.File{Name: f.Name, Data: []byte(f.Data)})
-				files[f.Name] = fixNL(f.Data)
+				a.Files = append(a.Files, txtar.File{Name: f.Name, Data: f.content()})
+				files[f.Name] = fixNL(f.content())
 			}
 			if err := os.WriteFile(base+"."+m.Form, txtar.Format(a), 0o666); err != nil {
 				return nil, false
@@ -106,10 +122,10 @@ func materialize(dir string, c proxyCase) (stored map[string]map[string][]byte, 
 				if err := os.MkdirAll(filepath.Dir(p), 0o777); err != nil {
 					return nil, false
 				}
-				if err := os.WriteFile(p, f.Data, 0o666); err != nil {
+				if err := os.WriteFile(p, f.content(), 0o666); err != nil {
 					return nil, false
 				}
-				files[f.Name] = []byte(f.Data)
+				files[f.Name] = f.content()
 			}
 		default:
 			return nil, false
@@ -351,6 +367,15 @@ func checkProxy(c proxyCase) *vt.Fail {
 				u := strings.Replace(reqs[i].url, srv.URL, srv2.URL, 1)
 				r, err := get(cl, u)
 				if err != nil {
+					// a request the server accepted and then dropped (EOF / reset) is a wrong response; failures to
+					// connect or time-outs are the environment's
+					if msg := err.Error(); strings.Contains(msg, "EOF") || strings.Contains(msg, "connection reset") {
+						mu.Lock()
+						if fail == nil {
+							fail = vt.Failf("concurrent-request-dropped", "under 16 concurrent clients GET %s was accepted and then dropped by the server: %v", strings.TrimPrefix(u, srv2.URL), err)
+						}
+						mu.Unlock()
+					}
 					continue
 				}
 				if r.Status != seqResp[i].Status || !bytes.Equal(r.Body, seqResp[i].Body) {
@@ -506,8 +531,8 @@ var pathPool = []pathSpec{
 }
 
 var filePool = []mfile{
-	{"x.go", vt.B("package x\n")}, {"sub/y.go", vt.B("package y\n")}, {".hidden", vt.B("hidden\n")}, {"sub/.keep", vt.B("")}, {".git/config", vt.B("[core]\n")},
-	{"empty", vt.B("")}, {"nonl.txt", vt.B("no final newline")}, {"a/b/c/deep.txt", vt.B("deep\n")}, {"README.md", vt.B("# readme\n")}, {"sub/.dot/inner.txt", vt.B("inner\n")},
+	{Name: "x.go", Data: vt.B("package x\n")}, {Name: "sub/y.go", Data: vt.B("package y\n")}, {Name: ".hidden", Data: vt.B("hidden\n")}, {Name: "sub/.keep", Data: vt.B("")}, {Name: ".git/config", Data: vt.B("[core]\n")},
+	{Name: "empty", Data: vt.B("")}, {Name: "nonl.txt", Data: vt.B("no final newline")}, {Name: "a/b/c/deep.txt", Data: vt.B("deep\n")}, {Name: "README.md", Data: vt.B("# readme\n")}, {Name: "sub/.dot/inner.txt", Data: vt.B("inner\n")},
 }
 
 func genProxy(t *rapid.T) proxyCase {
@@ -533,8 +558,12 @@ func genProxy(t *rapid.T) proxyCase {
 			}
 			seen := map[string]bool{}
 			if e2e {
-				m.Files = append(m.Files, mfile{"go.mod", m.Mod})
+				m.Files = append(m.Files, mfile{Name: "go.mod", Data: m.Mod})
 				seen["go.mod"] = true
+			}
+			if rapid.IntRange(0, 7).Draw(t, "big") == 0 {
+				m.Files = append(m.Files, mfile{Name: "big.dat", Data: vt.B("big\n"), Pad: 3 << 20})
+				seen["big.dat"] = true
 			}
 			for k, nf := 0, rapid.IntRange(0, 6).Draw(t, "nfiles"); k < nf; k++ {
 				f := rapid.SampledFrom(filePool).Draw(t, "file")
@@ -606,7 +635,7 @@ func TestProxy(t *testing.T) {
 			out = append(out, d)
 		}
 		return out
-	}}, vt.N(150, 5000))
+	}}, vt.N(150, 2000))
 	rec.Class("proxy:go-mod-downloads", e2eDownloads)
 }
 
